@@ -574,7 +574,11 @@ func c11Run(c c11Case, master []byte, wd time.Duration) (fails []c11Fail, st c11
 	p.mu.Unlock()
 	if c.Perturb < 0 {
 		if werr != nil {
-			fails = append(fails, c11Fail{"writer", "error", werr.Error()})
+			// a reader that gave up closes the stream under the writer: only a write error
+			// with a satisfied reader is the writer's own
+			if len(fails) == 0 {
+				fails = append(fails, c11Fail{"writer", "error", werr.Error()})
+			}
 		} else if cl, d := c11CheckWire(tap, c.Len, c.Seq); cl != "" {
 			fails = append(fails, c11Fail{"writer", cl, d})
 		}
@@ -990,7 +994,8 @@ func TestVerif_C11(t *testing.T) {
 		}
 	} else {
 		// every reader: a frame plus its empty terminator, unperturbed and with the
-		// terminator's sequence id altered; the three-frame payload, the altered last /
+		// terminator's sequence id altered, and a payload of two full frames (plus one byte
+		// for one reader, plus the empty terminator for the other); the altered last /
 		// middle / first frame and one more boundary length alternate between the readers
 		// with the seed (the thorough tier runs all of them for both readers)
 		ra, rb := c11Readers[int(seed%2)], c11Readers[int((seed+1)%2)]
@@ -999,11 +1004,12 @@ func TestVerif_C11(t *testing.T) {
 			perturb(c11Max, 1, reader, true, []int{1}) // empty terminator, default features
 		}
 		m.one(mk(2*c11Max+1, seqs[r.Intn(5)], c11Frags[1+r.Intn(5)], ra, c11Writers[r.Intn(3)], -1, 0))
+		m.one(mk(2*c11Max, seqs[r.Intn(5)], c11Frags[1+r.Intn(5)], rb, c11Writers[r.Intn(3)], -1, 0))
 		perturb(c11Max+1, 1, rb, false, oneDelta())               // last
 		perturb(2*c11Max+1-int(seed%2), 1, ra, false, oneDelta()) // middle
 		perturb(c11Max+1-int(seed%2), 0, rb, false, oneDelta())   // first / only
-		rest := []int{c11Max - 2, c11Max - 1, c11Max + 1, 2*c11Max - 1, 2 * c11Max}
-		cover(rest[int(seed%5)], 1, int(seed%6))
+		rest := []int{c11Max - 2, c11Max - 1, c11Max + 1, 2*c11Max - 1}
+		cover(rest[int(seed%4)], 1, int(seed%6))
 		for li, n := range rnd {
 			cover(n, 1, li+int(seed%6)+1)
 		}
